@@ -2,6 +2,7 @@ package vc
 
 import (
 	"fmt"
+	"strings"
 	"go/token"
 	"go/types"
 	"math"
@@ -520,6 +521,19 @@ func (u *Unit) idxAdd(a, b string) string {
 	}
 	return "(+ " + a + " " + b + ")"
 }
+// elemIdx: absolute index of element i of a slice with offset off. In int mode an
+// uninterpreted wrapper keeps the term syntactically stable for quantifier triggers.
+func (u *Unit) elemIdx(off, i string) string {
+	if u.mode.BV {
+		return "(bvadd " + off + " " + i + ")"
+	}
+	if !u.declared["fn:sidx"] {
+		u.declared["fn:sidx"] = true
+		u.emit("(declare-fun sidx (Int Int) Int)")
+		u.emit("(assert (forall ((o Int) (i Int)) (! (= (sidx o i) (+ o i)) :pattern ((sidx o i)))))")
+	}
+	return "(sidx " + off + " " + i + ")"
+}
 func (u *Unit) idxSub(a, b string) string {
 	if u.mode.BV {
 		return "(bvsub " + a + " " + b + ")"
@@ -664,20 +678,44 @@ func fpDims(bits int) string {
 	return "11 53"
 }
 
-// shift(a, off)[k] = a[off+k]; shift(a,0) = a
+// shift(a, off)[k] = a[off+k]; shift(a,0) = a   (byte arrays; see shiftOf for other sorts)
 func (u *Unit) shift(arr, off string) string {
+	return u.shiftOf(u.byteSort(), arr, off)
+}
+
+func sortTag(es string) string {
+	r := strings.NewReplacer("(", "", ")", "", " ", "_", "|", "")
+	return r.Replace(es)
+}
+
+func (u *Unit) shiftOf(es, arr, off string) string {
 	if off == u.mode.idxLit(0) {
 		return arr
 	}
-	if !u.usesShift {
-		u.usesShift = true
+	fn := q("shift_" + sortTag(es))
+	if !u.declared["fn:"+fn] {
+		u.declared["fn:"+fn] = true
 		I := u.mode.idxSort()
-		B := u.byteSort()
-		u.emit("(declare-fun shift_b ((Array %s %s) %s) (Array %s %s))", I, B, I, I, B)
-		u.emit("(assert (forall ((a (Array %s %s))) (! (= (shift_b a %s) a) :pattern ((shift_b a %s)))))", I, B, u.mode.idxLit(0), u.mode.idxLit(0))
-		u.emit("(assert (forall ((a (Array %s %s)) (o %s) (k %s)) (! (= (select (shift_b a o) k) (select a %s)) :pattern ((select (shift_b a o) k)))))", I, B, I, I, u.idxAdd("o", "k"))
+		u.emit("(declare-fun %s ((Array %s %s) %s) (Array %s %s))", fn, I, es, I, I, es)
+		u.emit("(assert (forall ((a (Array %s %s))) (! (= (%s a %s) a) :pattern ((%s a %s)))))", I, es, fn, u.mode.idxLit(0), fn, u.mode.idxLit(0))
+		u.emit("(assert (forall ((a (Array %s %s)) (o %s) (k %s)) (! (= (select (%s a o) k) (select a %s)) :pattern ((select (%s a o) k)))))", I, es, I, I, fn, u.idxAdd("o", "k"), fn)
 	}
-	return "(shift_b " + arr + " " + off + ")"
+	return "(" + fn + " " + arr + " " + off + ")"
+}
+
+// blit(d, do, s, so, n)[x] = s[so + x - do] if do <= x < do+n else d[x]
+func (u *Unit) blitOf(es, d, do, s, so, n string) string {
+	fn := q("blit_" + sortTag(es))
+	if !u.declared["fn:"+fn] {
+		u.declared["fn:"+fn] = true
+		m := u.mode
+		I := m.idxSort()
+		A := fmt.Sprintf("(Array %s %s)", I, es)
+		u.emit("(declare-fun %s (%s %s %s %s %s) %s)", fn, A, I, A, I, I, A)
+		u.emit("(assert (forall ((d %s) (do %s) (s %s) (so %s) (n %s) (x %s)) (! (= (select (%s d do s so n) x) (ite (and %s %s) (select s %s) (select d x))) :pattern ((select (%s d do s so n) x)))))",
+			A, I, A, I, I, I, fn, m.cmp("<=", "do", "x", true), m.cmp("<", "x", u.idxAdd("do", "n"), true), u.idxAdd("so", u.idxSub("x", "do")), fn)
+	}
+	return fmt.Sprintf("(%s %s %s %s %s %s)", fn, d, do, s, so, n)
 }
 
 // ---------------------------------------------------------------- interfaces
